@@ -133,6 +133,14 @@ class Prop:
             if mine and mine[0][0] < fseq:
                 out.probes["fault_after_downstream_ended"] += 1  # nothing left to deliver to
                 return out
+            if n == nid and len(live) > 1:
+                # the node is subscribed more than once (re-subscribed by repeat / while_do / retry while an earlier subscription
+                # is still alive, e.g. kept by an open window): the callback may have served an older subscription
+                for older in live[:-1]:
+                    evs = [e for e in tap if e[4] == older and e[2] in "CED"]
+                    if evs and evs[0][0] > fseq and evs[0][2] == "E" and isinstance(evs[0][3], vt.InjectedFault):
+                        out.probes["fault_in_an_older_subscription_of_the_node"] += 1  # delivered there; that one is not on the path to the root
+                        return out
             if n == nid:
                 node_term = mine[0] if mine else None
                 if node_term is not None and node_term[2] == "D" and node_term[1] == ft:
